@@ -42,12 +42,40 @@ class Regions:
                 return k
         return None
 
+    def value(self, rf, asg):
+        """rf with the selections at its top settled by the assignment: guard(c, a, b) is a or b when c evaluates"""
+        while isinstance(rf, RF):
+            a = rf.single_atom()
+            if a is None or self.tab.atoms[a].head != 'guard' or len(self.tab.atoms[a].args) != 3:
+                return rf
+            at = self.tab.atoms[a]
+            c = self.ev(at.args[0], asg)
+            if c is T:
+                rf = at.args[1]
+            elif c is F:
+                rf = at.args[2]
+            else:
+                return rf
+        return rf
+
+    def _is_none(self, rf):
+        """True / False when rf is the literal None / a literal that is not None, else U"""
+        if not isinstance(rf, RF):
+            return U
+        if rf.const() is not None:
+            return F
+        a = rf.single_atom()
+        if a is not None and self.tab.atoms[a].head == 'const':
+            return T if self.tab.atoms[a].args[0] == 'None' else F
+        return U
+
     def ev(self, rf, asg):
         if not isinstance(rf, RF):
             return U
         k = self.classify(rf)
         if k is not None:
             return asg[k]
+        rf = self.value(rf, asg)
         a = rf.single_atom()
         if a is None:
             c = rf.const()
@@ -61,7 +89,15 @@ class Regions:
         if at.head == 'unop' and at.extra == 'Not':
             return tv_not(self.ev(at.args[0], asg))
         if at.head == 'const':
-            return {'True': T, 'False': F}.get(at.args[0], U)
+            return {'True': T, 'False': F, 'None': F}.get(at.args[0], U)
+        if at.head == 'cmp' and at.extra and len(at.extra) == 1 and at.extra[0] in ('Is', 'IsNot') and len(at.args) == 2:
+            # `x is None` / `x is not None` where x is settled by the assignment
+            for x, y in ((at.args[0], at.args[1]), (at.args[1], at.args[0])):
+                if self._is_none(y) is T:
+                    v = self._is_none(self.value(x, asg))
+                    if v is U:
+                        return U
+                    return v if at.extra[0] == 'Is' else tv_not(v)
         return U
 
     def guard_value(self, guards, asg):
